@@ -624,6 +624,16 @@ impl<'g> Cx<'g> {
         s
     }
 
+    /// the explicit randomness parameters of the callee (see `manifest::RANDOM_SOURCES`): one fresh parameter of the
+    /// current fn each
+    fn push_rand_args(&mut self, info: &FnInfo, args: &mut String) {
+        let n = self.g.rand_counts.borrow().get(&(info.ns.clone(), info.short_lean())).copied().unwrap_or(0);
+        for _ in 0..n {
+            self.rand_sites += 1;
+            args.push_str(&format!(" rand{}", self.rand_sites));
+        }
+    }
+
     /// resolve a call expression to a translated fn; returns the applied Lean term (a `Res` value) and the places
     /// passed as `&mut` cursor parameters (to be written back from the result tuple)
     pub fn call_term(&mut self, e: &syn::Expr, stmts: &mut Vec<Stmt>) -> R<(String, FnInfo, Vec<Place>)> {
@@ -732,6 +742,7 @@ impl<'g> Cx<'g> {
                         args.push_str(&format!(" {}", t));
                     }
                 }
+                self.push_rand_args(&info, &mut args);
                 Ok((format!("{}{}", self.fn_lean_name(&info), args), info, places))
             }
             syn::Expr::MethodCall(m) => {
@@ -760,6 +771,7 @@ impl<'g> Cx<'g> {
                         args.push_str(&format!(" {}", t));
                     }
                 }
+                self.push_rand_args(&info, &mut args);
                 Ok((format!("{}{}", self.fn_lean_name(&info), args), info, places))
             }
             _ => self.bail(e.span(), "expected a call"),
@@ -959,7 +971,12 @@ impl<'g> Cx<'g> {
                 // the caller inspects the `Result`: the receiver (and the `&mut` arguments) keep the state the callee
                 // leaves behind (Ok or Err)
                 let t = self.fresh();
-                stmts.push(Stmt::Bind(t.clone(), Doc::atom(format!("Exec.attempt ({})", applied))));
+                let comb = match places.len() {
+                    1 => "Exec.attempt",
+                    2 => "Exec.attempt2",
+                    _ => return self.bail(m.span(), "an inspected `Result` call with more than two components of `&mut` state is not supported"),
+                };
+                stmts.push(Stmt::Bind(t.clone(), Doc::atom(format!("{} ({})", comb, applied))));
                 let n = places.len();
                 for (i, p) in places.iter().enumerate() {
                     let comp = if n == 1 { format!("{}.1", t) } else { Self::tuple_proj(&format!("{}.1", t), i, n) };
@@ -1137,7 +1154,13 @@ impl<'g> Cx<'g> {
             // the caller inspects the `Result` (`if let Err(e) = f(..)`, `match f(..) { Ok(x) => .., Err(e) => .. }`)
             let t = self.fresh();
             if info.err_state {
-                stmts.push(Stmt::Bind(t.clone(), Doc::atom(format!("Exec.attempt ({})", term))));
+                // (one or two components of `&mut` state; the two-component form regroups the callee's result)
+                let comb = match places.len() {
+                    1 => "Exec.attempt",
+                    2 => "Exec.attempt2",
+                    _ => return self.bail(e.span(), "an inspected `Result` call with more than two `&mut` arguments is not supported"),
+                };
+                stmts.push(Stmt::Bind(t.clone(), Doc::atom(format!("{} ({})", comb, term))));
                 let n = places.len();
                 for (i, pl) in places.iter().enumerate() {
                     let comp = if n == 1 { format!("{}.1", t) } else { Self::tuple_proj(&format!("{}.1", t), i, n) };
@@ -1191,7 +1214,14 @@ impl<'g> Cx<'g> {
         if info.self_mode == SelfMode::Mut {
             return self.bail(span, "`&mut self` method called on something that is not a place");
         }
-        let caller = self.try_caller(&er, info.err_state, &places, span)?;
+        if info.err_state && self.err_state {
+            for pl in &places {
+                self.snapshot_for_update(pl, stmts)?;
+            }
+        }
+        let caller = self.try_caller(&er, info.err_state, &places, span);
+        self.snapshots.clear();
+        let caller = caller?;
         let v = self.finish_call(&caller, &term, &info, &places, &ok, stmts)?;
         Ok((v, ok))
     }
@@ -1204,6 +1234,22 @@ impl<'g> Cx<'g> {
         let segs = path_strs(p);
         let args: Vec<&syn::Expr> = c.args.iter().collect();
         let last = segs.last().unwrap().as_str();
+        // an external source of randomness: an explicit parameter of the generated fn
+        if args.is_empty()
+            && crate::manifest::RANDOM_SOURCES.iter().any(|(_, n)| *n == last)
+            && !self.g.fns.contains_key(&(None, last.to_string()))
+        {
+            self.rand_sites += 1;
+            let ty = match exp {
+                Some(t @ Ty::List(..)) => t.clone(),
+                _ => Ty::List(Box::new(Ty::u8()), ListKind::Array),
+            };
+            return Ok((format!("rand{}", self.rand_sites), ty));
+        }
+        // `Box::new(x)`: a box is its content
+        if segs.len() == 2 && segs[0] == "Box" && last == "new" && args.len() == 1 {
+            return self.expr(args[0], exp, stmts);
+        }
         if segs.len() == 1 && last == "Some" && args.len() == 1 {
             let inner = match exp {
                 Some(Ty::Opt(t)) => Some((**t).clone()),
@@ -1601,6 +1647,8 @@ impl<'g> Cx<'g> {
             }
             (Ty::Int(_) | Ty::Bool, "clone", 0) => Ok((r, rt.clone())),
             (Ty::List(e, k), "iter", 0) if *k != ListKind::Iter => Ok((r, Ty::List(e.clone(), ListKind::Iter))),
+            // `vec.into_iter()`: the elements by value, same order
+            (Ty::List(e, ListKind::Vec), "into_iter", 0) => Ok((r, Ty::List(e.clone(), ListKind::Iter))),
             (Ty::List(e, ListKind::Iter), "rev", 0) => Ok((format!("(List.reverse {})", r), Ty::List(e.clone(), ListKind::Iter))),
             (Ty::List(_, _), "len", 0) => Ok((format!("(RustSem.len {})", r), Ty::usize())),
             (Ty::List(e, ListKind::Bytes), "slice", 1) => {
@@ -1633,6 +1681,12 @@ impl<'g> Cx<'g> {
                 Ok((format!("(List.{} {})", if name == "last" { "getLast?" } else { "head?" }, r), Ty::Opt(e.clone())))
             }
             (Ty::List(_, _), "is_empty", 0) => Ok((format!("(RustSem.is_empty {})", r), Ty::Bool)),
+            // `slice.contains(&x)` (`==` of the element type)
+            (Ty::List(e, k), "contains", 1) if *k != ListKind::Iter => {
+                let et = (**e).clone();
+                let (x, _) = self.expr(&m.args[0], Some(&et), stmts)?;
+                Ok((format!("(RustSem.contains {} {})", r, x), Ty::Bool))
+            }
             (Ty::List(e, _), "to_vec" | "into_vec", 0) => Ok((r, Ty::List(e.clone(), ListKind::Vec))),
             (Ty::List(e, ListKind::Vec), "into_boxed_slice", 0) => Ok((r, Ty::List(e.clone(), ListKind::Slice))),
             (Ty::List(_, _), "clone" | "as_slice" | "as_ref", 0) => Ok((r, rt.clone())),
